@@ -492,8 +492,8 @@ Proof.
     eapply sav_msg_withdraw_inv; eauto.
   - destruct (is_user e u) eqn:Hu; [|discriminate]. apply earn_deposit_inv; auto.
   - destruct (is_user e u) eqn:Hu; [|discriminate]. apply earn_withdraw_inv; auto.
-  - destruct (Nat.eqb (vault_strat e d) 1 && (hval s d <=? v)) eqn:C; [|discriminate].
-    apply andb_prop in C. destruct C as [_ C]. apply Z.leb_le in C.
+  - destruct (Nat.eqb (vault_strat e d) 1 && (hval s d <=? v) && (negb (hval s d =? 0) || (v =? 0))) eqn:C; [|discriminate].
+    apply andb_prop in C. destruct C as [C _]. apply andb_prop in C. destruct C as [_ C]. apply Z.leb_le in C.
     intros HH; inversion HH; subst. split; [exact HS|]. split; [|auto].
     intros dd. cbn [hval]. unfold upd. pose proof (Hh d) as Hd0. specialize (Hh dd). destruct (Nat.eqb_spec dd d); subst; lia.
   - destruct (Z.leb_spec 0 (bal (sv s) (hard_acc e) d + delta)); [|discriminate].
@@ -649,7 +649,7 @@ Proof.
     cbn [shr sv sdep]. split.
     + intros dd. rewrite upd2_eq, ESH. destruct (Nat.eqb_spec w u); [congruence|reflexivity].
     + intros Hne dd. apply Hsd; assumption.
-  - destruct (_ && _); [|discriminate]. inversion H; subst. cbn. auto.
+  - destruct (_ && _ && _); [|discriminate]. inversion H; subst. cbn. auto.
   - destruct (0 <=? _); [|discriminate]. inversion H; subst. unfold with_sv. cbn. auto.
   - destruct (negb (is_user e u) || (x <=? 0)); [discriminate|].
     destruct (bsend1 _ _ _ _ _); [|discriminate]. inversion H; subst. unfold with_sv. cbn. auto.
@@ -727,4 +727,213 @@ Proof.
       destruct (Z.ltb_spec (dec_quo_trunc (dec_mul (dec_of_int x) z) (dec_of_int z0)) 0); [discriminate|].
       inversion EC; subst. lia.
     + inversion EC; subst. unfold dec_of_int. pose proof PREC_pos. nia.
+Qed.
+
+(** ** nobody's redeemable value is reduced by another account's operation *)
+Lemma value_of_frame e s s' w d : vrec s' d = vrec s d -> total_value e s' d = total_value e s d ->
+  shr s' w d = shr s w d -> value_of e s' w d = value_of e s w d.
+Proof. intros A B C. unfold value_of, convert_to_assets. rewrite A, B, C. reflexivity. Qed.
+
+Lemma deposit_others_value e s u d0 x st s' out : env_wf e -> Inv e s -> is_user e u = true ->
+  earn_deposit e s u d0 x st = Ok s' out ->
+  forall w d, w <> u -> (w < nacc (se e))%nat -> value_of e s w d <= value_of e s' w d.
+Proof.
+  intros Hwf HI Hu H w d Hwu Hwn. destruct (is_user_spec _ _ Hu) as (U1 & U2 & U3 & U4).
+  pose proof (earn_deposit_inv _ _ _ _ _ _ _ _ Hwf HI Hu H) as HI'.
+  destruct (earn_deposit_ok _ _ _ _ _ _ _ _ H) as (b & sh & s3 & Hx & _ & _ & E1 & EC & ESD & -> & _).
+  destruct (cts_val _ _ _ _ _ HI Hx EC) as [Hsh HC].
+  destruct (strat_deposit_frame _ _ _ _ _ ESD) as (EV3 & ESH3 & _ & _ & Hoth & Htv). cbn [vrec shr hval sv sdep] in EV3, ESH3, Hoth.
+  assert (ESw : shr s3 w d = shr s w d).
+  { rewrite ESH3, upd2_eq. destruct (Nat.eqb_spec w u); [congruence|reflexivity]. }
+  destruct (Nat.eq_dec d d0) as [->|Hd].
+  - assert (EV' : vrec s3 d0 = Some (tot s d0 + sh)) by (rewrite EV3; unfold upd; rewrite Nat.eqb_refl; reflexivity).
+    pose proof HI as (_ & _ & Hv & Hs & Hsum).
+    destruct (vrec s d0) as [T|] eqn:EV.
+    + destruct HC as (V & ET & HV & ->).
+      assert (ET3 : total_value e s3 d0 = Some (V + x)) by (apply Htv; rewrite <- ET; apply tv_frame2; reflexivity).
+      destruct (value_of_eq e s w d0 T V HI EV ET) as [_ ->].
+      destruct (value_of_eq e s3 w d0 _ _ HI' EV' ET3) as [_ ->].
+      rewrite ESw. unfold tot. rewrite EV. specialize (Hv _ _ EV). specialize (Hs w d0).
+      set (k := x * T / V) in *. set (a := shr s w d0) in *.
+      assert (Hk : k * V <= x * T) by (unfold k; pose proof (Z.mul_div_le (x * T) V HV); lia).
+      apply div_le_cross; try lia.
+      assert (0 <= a * (x * T - k * V)) by (apply Z.mul_nonneg_nonneg; lia). nia.
+    + rewrite (value_of_none e s w d0 EV). apply value_of_nonneg. assumption.
+  - rewrite (value_of_frame e s s3 w d); [lia| | |assumption].
+    + rewrite EV3. unfold upd. destruct (Nat.eqb_spec d d0); [congruence|reflexivity].
+    + destruct (Hoth d Hd) as [A B]. unfold total_value. rewrite A, B. reflexivity.
+Qed.
+
+Lemma withdraw_others_value e s u d0 x st s' out : env_wf e -> Inv e s -> is_user e u = true ->
+  earn_withdraw e s u d0 x st = Ok s' out ->
+  forall w d, w <> u -> (w < nacc (se e))%nat -> value_of e s w d <= value_of e s' w d.
+Proof.
+  intros Hwf HI Hu H w d Hwu Hwn. destruct (is_user_spec _ _ Hu) as (U1 & U2 & U3 & U4).
+  pose proof (earn_withdraw_inv _ _ _ _ _ _ _ _ Hwf HI Hu H) as HI'.
+  destruct (withdraw_capped _ _ _ _ _ _ _ _ Hwf HI Hu H) as (Hout & _ & _ & _ & _ & Hcap).
+  destruct (earn_withdraw_ok _ _ _ _ _ _ _ _ H) as (T & ws0 & av & s1 & b & rest & Hx & EV & EC & Hle & EA & _ & _ & ESW & EB & _ & Hge & ES').
+  destruct (cts_val _ _ _ _ _ HI Hx EC) as [Hws0 HC]. rewrite EV in HC. destruct HC as (V & ET & HV & Ews0).
+  assert (Hws0' : 0 <= ws0) by lia.
+  destruct (cta_val _ _ _ _ _ HI Hws0' EA) as (T' & V' & EV' & ET' & HT & _ & Eout & _).
+  rewrite EV in EV'. inversion EV'; subst T'. rewrite ET in ET'. inversion ET'; subst V'.
+  destruct (strat_withdraw_frame _ _ _ _ _ ESW) as (EV1 & ESH1 & _).
+  destruct (strat_withdraw_inv e s d0 out s1 Hwf (proj1 HI) (proj1 (proj2 HI)) Hout ESW) as (_ & _ & _ & Hoth).
+  set (ws := if rest =? 0 then shr s u d0 else ws0) in *.
+  pose proof HI as (_ & _ & Hv & Hs & Hsum).
+  assert (Hws : ws0 <= ws <= shr s u d0) by (unfold ws; destruct (rest =? 0); lia).
+  assert (ESw : shr s' w d = shr s w d).
+  { rewrite ES'. cbn [shr]. rewrite upd2_eq, ESH1. destruct (Nat.eqb_spec w u); [congruence|reflexivity]. }
+  destruct (Nat.eq_dec d d0) as [->|Hd].
+  - destruct (Hcap V ET) as [HoutV ET'2].
+    destruct (value_of_eq e s w d0 T V HI EV ET) as [_ ->].
+    assert (Hpair : shr s u d0 + shr s w d0 <= T).
+    { pose proof (sumN_ge2 (nacc (se e)) (fun a => shr s a d0) u w (fun a => Hs a d0) U1 Hwn ltac:(congruence)) as G.
+      cbn beta in G. specialize (Hsum d0). unfold tot in Hsum. rewrite EV in Hsum. lia. }
+    pose proof (Hs w d0) as Ha. set (a := shr s w d0) in *.
+    destruct (Z.eq_dec (T - ws) 0) as [Hz|Hnz].
+    + (* the vault record is deleted: nobody else held shares *)
+      assert (a = 0) by lia. replace a with 0 by lia. rewrite Z.mul_0_r, Z.div_0_l by lia.
+      apply value_of_nonneg. assumption.
+    + assert (EV'' : vrec s' d0 = Some (T - ws)).
+      { rewrite ES'. cbn [vrec]. unfold upd. rewrite Nat.eqb_refl. destruct (Z.eqb_spec (T - ws) 0); [lia|reflexivity]. }
+      destruct (value_of_eq e s' w d0 _ _ HI' EV'' ET'2) as [_ ->]. rewrite ESw. fold a.
+      assert (Hp : out * T <= V * ws0) by (rewrite Eout; pose proof (Z.mul_div_le (V * ws0) T HT); lia).
+      apply div_le_cross; try lia.
+      assert (0 <= a * (V * ws - out * T)) by (apply Z.mul_nonneg_nonneg; nia). nia.
+  - rewrite (value_of_frame e s s' w d); [lia| | |assumption].
+    + rewrite ES'. cbn [vrec]. unfold upd. rewrite EV1. destruct (Nat.eqb_spec d d0); [congruence|reflexivity].
+    + rewrite <- (Hoth d Hd). rewrite ES'. unfold total_value. cbn [hval sv sdep]. reflexivity.
+Qed.
+
+Lemma others_value_monotone e s o s' out : env_wf e -> Inv e s -> step e s o = Ok s' out ->
+  forall w d, actor o <> Some w -> (w < nacc (se e))%nat -> value_of e s w d <= value_of e s' w d.
+Proof.
+  intros Hwf HI. destruct o as [u c|u c|u d0 x st|u d0 x st|d0 v|d0 delta|u d0 x]; cbn [actor]; intros H w d Hw Hwn.
+  - destruct (step_sdeposit_exact _ _ _ _ _ _ H) as (_ & _ & _ & _ & Hsd & Hh & Hv & Hs).
+    cbn [step] in H. destruct (is_user e u) eqn:Hu; [|discriminate]. destruct (is_user_spec _ _ Hu) as (U1 & U2 & U3 & U4).
+    rewrite (value_of_frame e s s' w d); [lia|rewrite Hv; reflexivity| |rewrite Hs; reflexivity].
+    unfold total_value. rewrite Hh, (Hsd (earn_acc e) d) by congruence. reflexivity.
+  - destruct (step_swithdraw_exact _ _ _ _ _ _ HI H) as (_ & _ & _ & _ & _ & _ & Hsd & Hh & Hv & Hs).
+    cbn [step] in H. destruct (is_user e u) eqn:Hu; [|discriminate]. destruct (is_user_spec _ _ Hu) as (U1 & U2 & U3 & U4).
+    rewrite (value_of_frame e s s' w d); [lia|rewrite Hv; reflexivity| |rewrite Hs; reflexivity].
+    unfold total_value. rewrite Hh, (Hsd (earn_acc e) d) by congruence. reflexivity.
+  - cbn [step] in H. destruct (is_user e u) eqn:Hu; [|discriminate].
+    eapply deposit_others_value; eauto; congruence.
+  - cbn [step] in H. destruct (is_user e u) eqn:Hu; [|discriminate].
+    eapply withdraw_others_value; eauto; congruence.
+  - pose proof H as Hstep.
+    cbn [step] in H. destruct (Nat.eqb (vault_strat e d0) 1 && (hval s d0 <=? v) && (negb (hval s d0 =? 0) || (v =? 0))) eqn:C; [|discriminate].
+    apply andb_prop in C. destruct C as [C _]. apply andb_prop in C.
+    destruct C as [C1 C2]. apply Nat.eqb_eq in C1. apply Z.leb_le in C2.
+    inversion H; subst; clear H.
+    set (s' := mkE (sv s) (upd (hval s) d0 v) (vrec s) (shr s)) in *.
+    assert (HI' : Inv e s') by (eapply (step_inv e s (Accrue d0 v)); eauto).
+    destruct (Nat.eq_dec d d0) as [->|Hd].
+    + destruct (vrec s d0) as [T|] eqn:EV.
+      * assert (ET : total_value e s d0 = Some (hval s d0)) by (unfold total_value; rewrite C1; reflexivity).
+        assert (ET' : total_value e s' d0 = Some v).
+        { unfold total_value. rewrite C1. cbn [hval s']. unfold upd. rewrite Nat.eqb_refl. reflexivity. }
+        destruct (value_of_eq e s w d0 T _ HI EV ET) as [_ ->].
+        destruct (value_of_eq e s' w d0 T _ HI' EV ET') as [_ ->]. cbn [shr s'].
+        pose proof HI as (_ & Hh & Hv & Hs & _). specialize (Hv _ _ EV). specialize (Hs w d0). specialize (Hh d0).
+        apply Z.div_le_mono; [lia|]. apply Z.mul_le_mono_nonneg_r; lia.
+      * rewrite (value_of_none e s w d0 EV). apply value_of_nonneg. assumption.
+    + rewrite (value_of_frame e s s' w d); [lia|reflexivity| |reflexivity].
+      unfold total_value. cbn [hval sv s']. unfold upd. destruct (Nat.eqb_spec d d0); [congruence|reflexivity].
+  - cbn [step] in H. destruct (0 <=? _); [|discriminate]. inversion H; subst.
+    match goal with |- _ <= value_of e ?s2 w d => rewrite (value_of_frame e s s2 w d) end; [lia|reflexivity|reflexivity|reflexivity].
+  - cbn [step] in H. destruct (negb (is_user e u) || (x <=? 0)); [discriminate|].
+    destruct (bsend1 _ _ _ _ _); [|discriminate]. inversion H; subst.
+    match goal with |- _ <= value_of e ?s2 w d => rewrite (value_of_frame e s s2 w d) end; [lia|reflexivity|reflexivity|reflexivity].
+Qed.
+
+(** ** what a withdrawal takes beyond what it pays: at most one coin of rounding
+    when the remaining shares are kept (not swept as dust) *)
+Lemma withdraw_no_sweep_loss e s u d x st s' w : env_wf e -> Inv e s -> is_user e u = true ->
+  earn_withdraw e s u d x st = Ok s' w -> shr s' u d <> 0 ->
+  value_of e s u d - w - 1 <= value_of e s' u d.
+Proof.
+  intros Hwf HI Hu H Hrem. destruct (is_user_spec _ _ Hu) as (U1 & U2 & U3 & U4).
+  pose proof (earn_withdraw_inv _ _ _ _ _ _ _ _ Hwf HI Hu H) as HI'.
+  destruct (withdraw_capped _ _ _ _ _ _ _ _ Hwf HI Hu H) as (Hout & _ & _ & _ & _ & Hcap).
+  destruct (earn_withdraw_ok _ _ _ _ _ _ _ _ H) as (T & ws0 & av & s1 & b & rest & Hx & EV & EC & Hle & EA & _ & _ & ESW & EB & _ & Hge & ES').
+  destruct (cts_val _ _ _ _ _ HI Hx EC) as [Hws0 HC]. rewrite EV in HC. destruct HC as (V & ET & HV & Ews0).
+  assert (Hws0' : 0 <= ws0) by lia.
+  destruct (cta_val _ _ _ _ _ HI Hws0' EA) as (T' & V' & EV' & ET' & HT & _ & Eout & _).
+  rewrite EV in EV'. inversion EV'; subst T'. rewrite ET in ET'. inversion ET'; subst V'.
+  destruct (strat_withdraw_frame _ _ _ _ _ ESW) as (EV1 & ESH1 & _).
+  assert (ESu : shr s' u d = shr s u d - (if rest =? 0 then shr s u d else ws0)).
+  { rewrite ES'. cbn [shr]. rewrite upd2_eq, !Nat.eqb_refl. reflexivity. }
+  destruct (Z.eqb_spec rest 0) as [|Hr]; [rewrite ESu in Hrem; lia|].
+  pose proof (shr_le_tot e s u d HI U1) as Hst. unfold tot in Hst. rewrite EV in Hst.
+  set (a := shr s u d) in *.
+  assert (Hpos : 0 < T - ws0) by lia.
+  assert (EV'' : vrec s' d = Some (T - ws0)).
+  { rewrite ES'. cbn [vrec]. unfold upd. rewrite Nat.eqb_refl. destruct (Z.eqb_spec (T - ws0) 0); [lia|reflexivity]. }
+  destruct (Hcap V ET) as [HoutV ET2].
+  destruct (value_of_eq e s u d T V HI EV ET) as [_ ->].
+  destruct (value_of_eq e s' u d _ _ HI' EV'' ET2) as [_ ->]. rewrite ESu. fold a.
+  (* floor(V a/T) - floor(V ws0/T) - 1 <= floor(V (a-ws0)/T) <= floor((V-w)(a-ws0)/(T-ws0)) *)
+  assert (L1 : V * a / T - w - 1 <= V * (a - ws0) / T).
+  { apply Z.div_le_lower_bound; [lia|].
+    pose proof (Z.mul_div_le (V * a) T HT).
+    pose proof (Z.mul_succ_div_gt (V * ws0) T HT). rewrite <- Eout in *. nia. }
+  assert (L2 : V * (a - ws0) / T <= (V - w) * (a - ws0) / (T - ws0)).
+  { apply div_le_cross; try lia.
+    assert (Hp : w * T <= V * ws0) by (rewrite Eout; pose proof (Z.mul_div_le (V * ws0) T HT); lia).
+    assert (0 <= (a - ws0) * (V * ws0 - w * T)) by (apply Z.mul_nonneg_nonneg; lia). nia. }
+  lia.
+Qed.
+
+(** ** how much the dust sweep can take: when a withdrawal removes all shares of
+    the account, what it forfeits beyond one coin of rounding is below sqrt(V) *)
+Lemma sweep_forfeit_bound e s u d x st s' w V : env_wf e -> Inv e s -> is_user e u = true ->
+  earn_withdraw e s u d x st = Ok s' w -> shr s' u d = 0 -> total_value e s d = Some V ->
+  let l := value_of e s u d - w - 1 in 0 <= l -> l * l < V.
+Proof.
+  intros Hwf HI Hu H Hz ETV l Hl. destruct (is_user_spec _ _ Hu) as (U1 & U2 & U3 & U4).
+  destruct (withdraw_capped _ _ _ _ _ _ _ _ Hwf HI Hu H) as (Hout & _ & _ & _ & _ & Hcap).
+  destruct (earn_withdraw_ok _ _ _ _ _ _ _ _ H) as (T & ws0 & av & s1 & b & rest & Hx & EV & EC & Hle & EA & _ & _ & ESW & EB & ER & Hge & ES').
+  destruct (cts_val _ _ _ _ _ HI Hx EC) as [Hws0 HC]. rewrite EV in HC. destruct HC as (V0 & ET & HV & Ews0).
+  rewrite ETV in ET. inversion ET; subst V0. clear ET.
+  assert (Hws0' : 0 <= ws0) by lia.
+  destruct (cta_val _ _ _ _ _ HI Hws0' EA) as (T' & V' & EV' & ET' & HT & _ & Eout & _).
+  rewrite EV in EV'. inversion EV'; subst T'. rewrite ETV in ET'. inversion ET'; subst V'.
+  destruct (Hcap V ETV) as [HwV ET2].
+  (* the dust estimate is computed in the state after the strategy withdrawal and the payout *)
+  assert (Erest : rest = (V - w) * (shr s u d - ws0) / T).
+  { unfold convert_to_assets in ER.
+    destruct (strat_withdraw_frame _ _ _ _ _ ESW) as (EV1 & _).
+    unfold with_sv in ER.
+    assert (ETs2 : total_value e (mkE (mkS b (sdep (sv s1))) (hval s1) (vrec s1) (shr s1)) d = Some (V - w)).
+    { rewrite <- ET2. rewrite ES'. unfold total_value. cbn [hval sv sdep]. reflexivity. }
+    rewrite ETs2 in ER. cbn [vrec] in ER. rewrite EV1, EV in ER. destruct (Z.eqb_spec T 0); [lia|].
+    rewrite cta_eq in ER by lia.
+    destruct (Z.ltb_spec ((V - w) * (shr s u d - ws0) / T) 0); [discriminate|]. inversion ER. reflexivity. }
+  assert (ESu : shr s' u d = shr s u d - (if rest =? 0 then shr s u d else ws0)).
+  { rewrite ES'. cbn [shr]. rewrite upd2_eq, !Nat.eqb_refl. reflexivity. }
+  pose proof (shr_le_tot e s u d HI U1) as Hst. unfold tot in Hst. rewrite EV in Hst.
+  destruct (value_of_eq e s u d T V HI EV ETV) as [_ Eval]. unfold l in *. rewrite Eval in *. clear l.
+  set (a := shr s u d) in *. set (r := a - ws0) in *.
+  assert (Hr : 0 <= r) by (unfold r; lia).
+  assert (Hsmall : (V - w) * r < T).
+  { destruct (Z.eqb_spec rest 0) as [Hr0|Hr0].
+    - rewrite Erest in Hr0. apply Z.div_small_iff in Hr0; [|lia]. destruct Hr0 as [?|?]; lia.
+    - assert (r = 0) by (unfold r; lia). nia. }
+  (* f = floor(V r / T);  V a/T - w - 1 <= f;  f <= V - w;  f T <= V r *)
+  set (f := V * r / T).
+  assert (Hf0 : 0 <= f) by (apply Z.div_pos; nia).
+  assert (HfT : f * T <= V * r) by (unfold f; pose proof (Z.mul_div_le (V * r) T HT); lia).
+  assert (L1 : V * a / T - w - 1 <= f).
+  { unfold f. apply Z.div_le_lower_bound; [lia|].
+    pose proof (Z.mul_div_le (V * a) T HT).
+    pose proof (Z.mul_succ_div_gt (V * ws0) T HT). rewrite <- Eout in *. unfold r. nia. }
+  assert (L2 : f <= V - w).
+  { assert (w * T <= V * ws0) by (rewrite Eout; pose proof (Z.mul_div_le (V * ws0) T HT); lia).
+    (* f T <= V r <= V (T - ws0) <= (V - w) T *)
+    assert (f * T <= (V - w) * T) by (unfold r in *; nia). nia. }
+  assert (f * f < V).
+  { assert (f * (f * T) <= (V - w) * (V * r)) by (apply Z.mul_le_mono_nonneg; lia).
+    assert ((V - w) * (V * r) < V * T) by nia. nia. }
+  nia.
 Qed.
